@@ -376,6 +376,8 @@ def _early_exit(rc: RuleCtx, fi, name, loop, out, L, i, t, x, carried, state):
     a tie distance == t starts a new cluster."""
     res = rc.res
     mod = fi.module
+    from .common import account_loop_exits
+    account_loop_exits(fi)          # (the breaks of the pass are what this section judges)
     if len(out.breaks) != 1:
         raise AnalysisError(f"{fi.qualname}: {len(out.breaks)} early exits in the pass - shape not recognised")
     gb = out.breaks[0]
